@@ -311,8 +311,8 @@ class Summarizer:
         return None
 
     def _try(self, st: ast.Try, p: Path, ci, dyn, depth, fn, mod) -> List[Path]:
-        if st.finalbody or any(isinstance(x, (ast.Return, ast.Raise, ast.Try)) for b in st.body for x in ast.walk(b)):
-            raise AnalysisError(self.rule, fn.name, 'try with finally / return / raise / nested try inside its body is outside the subset of the path summariser')
+        if st.finalbody or any(isinstance(x, (ast.Raise, ast.Try)) for b in st.body for x in ast.walk(b)):
+            raise AnalysisError(self.rule, fn.name, 'try with finally / raise / nested try inside its body is outside the subset of the path summariser')
         out: List[Path] = []
         types = []
         for h in st.handlers:
